@@ -110,6 +110,9 @@ def gen_thread(rng, tid, cpu, mode, nmarks, deltas=None):
 
 def gen_case(chk, i):
     rng = chk.rng(i)
+    # thread and process ids: small, around the classic pid_max, or of seven digits (pid_max up to 4194304)
+    tb = [5 * 100, 5 * 100, 32767, 65535, 999999, 3000001, 4194200][(i // 3) % 7]
+    pid = [400, 400, 32768, 1000000, 4194303][(i // 5) % 5]
     mode = ["target", "target", "target", "dense", "edge", "soup", "target", "edge"][i % 8]
     nth = 1 if mode in ("dense",) or rng.random() < 0.6 else rng.randint(2, 4)
     many = (i % 16 == 13)
@@ -122,10 +125,10 @@ def gen_case(chk, i):
     tindex = (i // 8) * 4 + [0, 1, 2, 6].index(i % 8) if i % 8 in (0, 1, 2, 6) else 0
     deltas = [1 + (tindex * 3 + k) % 64 for k in range(3)]
     for t in range(nth):
-        ops, inf = gen_thread(rng, 500 + t, t, mode if t == 0 else "soup", 0, deltas if t == 0 else None)
+        ops, inf = gen_thread(rng, tb + t, t, mode if t == 0 else "soup", 0, deltas if t == 0 else None)
         if many:
             # keep each of the many threads short
-            k0 = ops.index("ev OHx now %s" % obs.i32(t, 500 + t, 0).hex())
+            k0 = ops.index("ev OHx now %s" % obs.i32(t, tb + t, 0).hex())
             k1 = len(ops) - 1 - ops[::-1].index("ev OHe now -")
             ops = ops[:k0 + 1] + ops[k0 + 1:min(k0 + 13, k1)] + ops[k1:]
             ops = [o for o in ops if not o.startswith("mark_p")]      # no half pairs left by the cut
@@ -150,7 +153,7 @@ def gen_case(chk, i):
             ops.insert(k, "barrier")
     if i % 80 == 41:
         # a stream larger than 2 GiB (2100 jumbo events of 1 MiB), relocated from OVNI_TMPDIR
-        a = ["init 500", "vercheck", "cpu 0 0", "require nosv 2.0.0", "ev OHx now %s" % obs.i32(0, 500, 0).hex()]
+        a = ["init %d" % tb, "vercheck", "cpu 0 0", "require nosv 2.0.0", "ev OHx now %s" % obs.i32(0, tb, 0).hex()]
         a += ["jumbo OB. now 1048576 7"] * 2100
         a += ["ev OHe now -", "flush", "free"]
         secs, nth, mode = [a], 1, "huge"
@@ -159,15 +162,15 @@ def gen_case(chk, i):
         # one thread keeps emitting while another is silent for more than 2^31 ns (and,
         # in the other case of the tier, more than 2^32 ns): real clocks, real sleeps
         gap = 3200000 if (i // 40) % 2 == 0 else 4700000
-        a = ["init 500", "vercheck", "cpu 0 0", "cpu 1 1", "require nosv 2.0.0", "ev OHx now %s" % obs.i32(0, 500, 0).hex()]
+        a = ["init %d" % tb, "vercheck", "cpu 0 0", "cpu 1 1", "require nosv 2.0.0", "ev OHx now %s" % obs.i32(0, tb, 0).hex()]
         for _ in range(gap // 100000 + 8):
             a += ["ev OB. now -", "usleep 100000"]
         a += ["ev OHe now -", "flush", "free"]
-        b = ["init 501", "vercheck", "require nosv 2.0.0", "ev OHx now %s" % obs.i32(1, 501, 0).hex(), "ev OB. now 0102",
+        b = ["init %d" % (tb + 1), "vercheck", "require nosv 2.0.0", "ev OHx now %s" % obs.i32(1, tb + 1, 0).hex(), "ev OB. now 0102",
              "usleep %d" % gap, "ev OB. now 0304", "ev OHe now -", "flush", "free"]
         secs, nth, mode = [a, b], 2, "gap"
         infos = [{"targets": []}]
-    out = ["proc 1 node%d %d" % (i % 3, 400)]
+    out = ["proc 1 node%d %d" % (i % 3, pid)]
     for ops in secs:
         out.append("thread"); out.extend(ops); out.append("end")
     out.append("fini")
@@ -194,6 +197,14 @@ def validate_stream(sdir):
     for k, ok in need.items():
         if not ok:
             return "metadata incomplete: %s" % k, st
+    # the identifiers in the metadata are those of the directory the stream lies in
+    try:
+        dtid = int(os.path.basename(sdir.rstrip("/")).split(".", 1)[1])
+        dpid = int(os.path.basename(os.path.dirname(sdir.rstrip("/"))).split(".", 1)[1])
+    except (IndexError, ValueError):
+        dtid = dpid = None
+    if dtid is not None and (o.get("tid") != dtid or o.get("pid") != dpid):
+        return "metadata wrong: tid %r / pid %r in stream.json, thread.%s of proc.%s on disk" % (o.get("tid"), o.get("pid"), dtid, dpid), st
     try:
         p_ = os.path.join(sdir, "stream.obs")
         evs = obs.decode_file(p_) if os.path.getsize(p_) < (1 << 29) else obs.decode_file_light(p_)
